@@ -24,7 +24,7 @@ def run_ref(spec, raw, off):
 
 def _field_desc(spec, rej):
     """kind of the reference field that rejected (for signatures)"""
-    off, fname, cname = rej.path[0]
+    off, fname, cname = rej.path[0] if rej.path else rej.leaf
     decls = [spec] + spec.subdecls()
     for d in decls:
         if d.name == cname:
@@ -237,3 +237,115 @@ def _roundtrip_abs(p, ref, raw, off, overl):
         if out[i] != (raw[pos] if inside else 46):
             return sig
     return "ok:accepted"
+
+
+def _is_run_member(f, first):
+    # a positioned field may START a run (its Move pseudo-field precedes the run) but cannot sit inside one
+    return (first or f.move is None) and ((isinstance(f, S.Int) and f.n in (1, 2, 4, 8)) or
+                                          (isinstance(f, S.Data) and f.size is not None and f.size.kind == "const"))
+
+
+def _innermost_ok(entry, want, decl, starts, generated):
+    """innermost stack entry: the failing field with the offset where it begins, or (generated code) the run of
+    adjacent fixed-size fields containing it with the offset where the run begins"""
+    o, n, c = entry
+    wo, wn, wc = want
+    if c != wc:
+        return False
+    if n == wn:
+        return o == wo
+    if not generated or not (isinstance(n, str) and n.startswith("between '")):
+        return False
+    try:
+        a = n.split("'")[1]
+        b = n.split("'")[3]
+    except Exception:
+        return False
+    names = [x for x, _ in decl.fields]
+    if a not in names or b not in names or wn not in names:
+        return False
+    ia, ib, jf = names.index(a), names.index(b), names.index(wn)
+    if not (ia <= jf <= ib and ia < ib):
+        return False
+    for i in range(ia, ib + 1):
+        if not _is_run_member(decl.fields[i][1], i == ia):
+            return False
+    if "align" in decl.opts:
+        return False
+    return a in starts and o == starts[a]
+
+
+def h_errors(spec, cls, raw, off, key, generated):
+    """C12, unpack side"""
+    ref, rej = run_ref(spec, raw, off)
+    err = None
+    try:
+        p = cls.unpack(raw, off)
+    except PacketError as e:
+        err = e
+        p = None
+    except Exception as e:
+        return "FAIL sig=C12|unpack-failure-not-PacketError|%s|%s" % (key, type(e).__name__)
+    quiet = cls.unpack(raw, off, silent=True)
+    if (quiet is None) != (p is None):
+        return "FAIL sig=C12|silent-mode-disagrees|%s" % key
+    if p is not None:
+        return "ok:accepted"
+    if rej is None:
+        return "ok:not-comparable"
+    if err.was_error_found_in_unpacking_phase is not True:
+        return "FAIL sig=C12|wrong-phase-flag|%s" % key
+    if not isinstance(getattr(err, "packet", None), cls):
+        return "FAIL sig=C12|exception-without-packet|%s" % key
+    stack = err.fields_stack
+    want = rej.path
+    if len(stack) != len(want):
+        return "FAIL sig=C12|stack-depth|%s got=%r want=%r" % (key, stack, want)
+    decl, starts = rej.levels[0]
+    if not _innermost_ok(stack[0], want[0], decl, starts, generated):
+        return "FAIL sig=C12|innermost-entry-does-not-locate-failing-field|%s got=%r want=%r" % (key, stack[0], want[0])
+    for i in range(1, len(want)):
+        if tuple(stack[i]) != tuple(want[i]):
+            return "FAIL sig=C12|enclosing-entry|%s level=%d got=%r want=%r" % (key, i, stack[i], want[i])
+    try:
+        text = str(err)
+    except Exception as e:
+        return "FAIL sig=C12|rendering-raises|%s|%s" % (key, type(e).__name__)
+    if "unpacking" not in text:
+        return "FAIL sig=C12|rendering-misses-phase|%s" % key
+    return "ok:rejected-located"
+
+
+def h_pack_errors(spec, cls, key, generated, fname, value):
+    """C12, pack side: default packet with one field set to a failing value"""
+    p = cls()
+    setattr(p, fname, value)
+    vals = R.V(spec.name)
+    for n, f in spec.fields:
+        if not isinstance(f, S.Em):
+            setattr(vals, n, getattr(p, n))
+    layout = R.ref_layout(spec, vals)
+    try:
+        out = p.pack()
+    except PacketError as e:
+        err = e
+    except Exception as e:
+        return "FAIL sig=C12|pack-failure-not-PacketError|%s|%s|%s" % (key, fname, type(e).__name__)
+    else:
+        return "ok:packed"
+    if err.was_error_found_in_unpacking_phase is not False:
+        return "FAIL sig=C12|wrong-phase-flag|%s" % key
+    if getattr(err, "packet", None) is not p:
+        return "FAIL sig=C12|exception-without-packet|%s" % key
+    if len(err.fields_stack) != 1:
+        return "FAIL sig=C12|stack-depth|%s got=%r" % (key, err.fields_stack)
+    want = (layout.get(fname), fname, spec.name)
+    if not _innermost_ok(err.fields_stack[0], want, spec, layout, generated):
+        return "FAIL sig=C12|innermost-entry-does-not-locate-failing-field|%s got=%r want=%r" % (key, err.fields_stack[0], want)
+    try:
+        text = str(err)
+    except Exception as e:
+        return "FAIL sig=C12|rendering-raises|%s|%s" % (key, type(e).__name__)
+    if "packing" not in text:
+        return "FAIL sig=C12|rendering-misses-phase|%s" % key
+    return "ok:rejected-located"
